@@ -1541,13 +1541,18 @@ class Data(BaseCartesianData):
           - New components must have the same shape as old components
           - Component subclasses cannot be updated.
         """
+        # Check all the new values before changing anything, so that a call
+        # that fails leaves the data unchanged
+        updates = []
         for comp, data in mapping.items():
             if isinstance(comp, ComponentID):
                 comp = self.get_component(comp)
             data = np.asarray(data)
             if data.shape != self.shape:
                 raise ValueError("Cannot change shape of data")
+            updates.append((comp, data))
 
+        for comp, data in updates:
             comp._data = data
 
         # alert hub of the change
